@@ -35,22 +35,46 @@ func c05TableCase() []string {
 	return ops
 }
 
-// the request mix of C06 plus an occasional CompactSwamp
+// the request mix of C06 plus an occasional CompactSwamp, and one request in five about expiry: Set and
+// Increment with an expiry (past, future, pre-epoch), PatchTreasures metadata (set / slide / clear),
+// ShiftExpiredTreasures and PatchExpiredTreasures over everything expired (how many and in which order
+// they claim is C30's subject: the cases carry sorted=1), ExpiredAt filters
 func c05Op(rng *rand.Rand) string {
 	if rng.Intn(30) == 0 {
 		return "compact"
+	}
+	if rng.Intn(5) == 0 {
+		ki := rng.Intn(len(c06Keys))
+		k := c06Keys[ki]
+		switch rng.Intn(10) {
+		case 0, 1:
+			return "set 11 " + k + "|" + c30Val(rng) + "|||||" + c30Exp(rng, ki)
+		case 2, 3, 4:
+			return "patch " + c06Pick(rng, []string{"0", "1", "1"}) + " " + k + " " + c30Meta(rng, ki)
+		case 5:
+			meta := "0||0||" + c30Exp(rng, ki)
+			return "inc i64 " + k + " 1 " + c06Pick(rng, []string{"-", "-", "eq:77", "ge:0"}) + " " + meta + " " + meta
+		case 6, 7:
+			return "shiftexp 0"
+		case 8:
+			if rng.Intn(2) == 0 {
+				return "patchexp 0 " + c06Pick(rng, []string{"0", "1"}) + "|" + c06Pick(rng, c06Users) + "|0|||1"
+			}
+			return "patchexp 0 0|" + c06Pick(rng, []string{"u7", "u8", ""}) + "|0|" + c06Pick(rng, []string{"u7", "u8"}) + "||0"
+		}
+		return "fexp " + c06Pick(rng, []string{"lt", "le", "gt", "ne", "empty", "notempty"}) + " " + c06Pick(rng, []string{"now", "b0", "a0"})
 	}
 	return c06RandOp(rng, true)
 }
 
 func c05Gen(rng *rand.Rand, tier string, w *bufio.Writer) {
-	cases, length, idleCases := 40, 24, 2
+	cases, length, idleCases := 24, 24, 1
 	if tier == "thorough" {
 		cases, length, idleCases = 150, 60, 12
 	}
 	n := 0
 	emit := func(kind string, ops []string) {
-		fmt.Fprintf(w, "case %d kind=%s\n", n, kind)
+		fmt.Fprintf(w, "case %d kind=%s sorted=1\n", n, kind)
 		n++
 		for _, o := range ops {
 			fmt.Fprintln(w, o)
@@ -87,7 +111,7 @@ func c05Gen(rng *rand.Rand, tier string, w *bufio.Writer) {
 		}
 		tail := []string{"compact", "set 11 late|i64:4242|a3000000000||||", "set 11 c0|i64:999|||a3000000000||", "del c1", "getall"}
 		ops := append([]string{"set 11 " + strings.Join(a, " "), "wait 2500", "set 11 " + strings.Join(b, " "), "wait 2500"}, tail...)
-		emit("p1t", append(append([]string{}, ops...), "wait 2500", "close", "getall", "count"))
+		emit("p1t", append(append([]string{}, ops...), "close", "getall", "count"))
 		ops = append([]string{"set 11 " + strings.Join(a, " "), "set 11 " + strings.Join(b, " ")}, tail...)
 		emit("p0", append(append([]string{}, ops...), "close", "getall", "count"))
 		emit("p1", append(append([]string{}, ops...), "close", "getall", "compact", "inc i64 c0 1 - - -", "restart", "getall"))
@@ -98,12 +122,34 @@ func c05Gen(rng *rand.Rand, tier string, w *bufio.Writer) {
 		emit(k, []string{"set 11 a|i64:1||||| |i64:2||||| x@65536|i64:4||||| x@65535|i64:5||||| z|i64:3|||||", "getall", "count", "close", "getall", "count",
 			"iske x@65535", "iske x@65536", "iske a"})
 	}
+	// an expiry set in one session and cleared through PatchTreasures in the next stays cleared; a pre-epoch
+	// expiry and records claimed by ShiftExpired / PatchExpired are read back as they were left
+	for _, k := range []string{"p1", "p0"} {
+		emit(k, []string{"set 11 k0|bytes:c70080|||||b3600000000000 k1|bytes:c70080|||||b-3600000000000 k2|bytes:c70080||||| k3|i64:1|||||b-3500000000000",
+			"patch 0 k2 0||0||a-5000000000|0", "getall", "close", "getall", "patch 0 k0 0||0|||1", "getall", "close", "getall", "patch 0 k0 0||0||b7200000000000|0", "close", "getall",
+			"shiftexp 0", "getall", "close", "getall", "count"})
+		emit(k, []string{"set 11 k0|bytes:c70080|||||b-3600000000000 k1|bytes:c70080|||||b-3500000000000 k2|i64:2|||||b-3400000000000", "close",
+			"patchexp 0 0||0|u7|b3600000000000|0", "getall", "close", "getall", "patchexp 0 0||0|||1", "shiftexp 0", "getall", "restart", "getall"})
+	}
+	// enough entries for the inline compaction (100 entries, 30 % of them dead) and the self-heal at load: 45 Sets of the
+	// same three keys, one more, close, read; then a few more writes on the compacted file and a second reload
+	{
+		var ops []string
+		for i := 0; i < 46; i++ {
+			ops = append(ops, fmt.Sprintf("set 11 c0|i64:%d||||| c1|str:%02x||||| c2|i64:%d|||||", i+1, i, 1000+i))
+		}
+		ops = append(ops, "getall", "close", "getall", "set 11 c3|i64:7||||| c0|i64:500|||||", "del c1", "getall", "close", "getall", "count")
+		emit("p0", ops)
+		emit("p1", ops)
+	}
 	// the write ticker (kind p1t, 1 s): the same delete / re-create / delete around ticker runs, zero-like
 	// values written by the ticker rather than by close, and one random history; a wait of 2.5 s
 	// precedes every request whose outcome depends on what the ticker has written
-	emit("p1t", []string{"set 11 k0|i64:5||||| k1|i64:6|||||", "wait 2500", "del k0", "inc i64 k0 1 - - -", "wait 2500", "del k0", "getall", "wait 2500", "close", "getall", "count"})
-	emit("p1t", []string{"set 11 k0|i64:0|a1000000000|u1||| k1|u32s:||||| k2|str:||||| k3|void|||||", "wait 2500", "restart", "getall", "set 11 k0|i64:7|||||", "del k1", "wait 2500", "close", "getall"})
-	{
+	emit("p1t", []string{"set 11 k0|i64:5||||| k1|i64:6|||||", "wait 2500", "del k0", "inc i64 k0 1 - - -", "wait 2500", "del k0", "getall", "close", "getall", "count"})
+	if tier == "thorough" {
+		emit("p1t", []string{"set 11 k0|i64:0|a1000000000|u1||| k1|u32s:||||| k2|str:||||| k3|void|||||", "wait 2500", "restart", "getall", "set 11 k0|i64:7|||||", "del k1", "wait 2500", "close", "getall"})
+	}
+	if tier == "thorough" {
 		var ops []string
 		for j := 0; j < 8; j++ {
 			o := c05Op(rng)
@@ -121,7 +167,7 @@ func c05Gen(rng *rand.Rand, tier string, w *bufio.Writer) {
 	for i := 0; i < cases; i++ {
 		kind := c06Pick(rng, []string{"p0", "p1", "p1", "p0"})
 		closer := "close"
-		if i%5 == 4 {
+		if (tier == "thorough" && i%5 == 4) || i%8 == 7 {
 			closer = "restart"
 		}
 		if i < idleCases {
